@@ -79,7 +79,7 @@ Fixpoint map2 (f : Z -> Z -> Z) (a b : list Z) : list Z :=
 Definition zframe := list Z.
 Definition zsig := sig zframe Z Z Z.
 
-Section Inst.
+Section Prim.
 Variable fm : fmt.
 
 Definition z_eqm : zframe := repeat (unsigned_off fm) (fmt_nch fm).
@@ -90,23 +90,6 @@ Definition z_offset (off : Z) (a : zframe) : zframe := map (fun x => s_add fm x 
 Definition z_fmap (f : Z -> Z) (a : zframe) : zframe := map f a.
 Definition z_tos (x : Z) : Z := if is_float fm then x else z_to_signed fm x.
 Definition z_ofs (x : Z) : Z := if is_float fm then x else z_of_signed fm x.
-
-Definition znext : zsig -> zframe * zsig :=
-  next zframe Z Z Z z_eqm (fmt_nch fm) (fun l => l) z_fmap z_add z_mul z_scale z_offset
-       z_tos z_ofs (s_ltb fm) (s_neg fm).
-Definition ztrace : zsig -> list (event zframe) :=
-  trace zframe Z Z Z z_eqm (fmt_nch fm) (fun l => l) z_fmap z_add z_mul z_scale z_offset
-        z_tos z_ofs (s_ltb fm) (s_neg fm).
-Definition zuntil_next : zsig -> option zframe * zsig :=
-  until_next zframe Z Z Z z_eqm (fmt_nch fm) (fun l => l) z_fmap z_add z_mul z_scale z_offset
-       z_tos z_ofs (s_ltb fm) (s_neg fm).
-Definition zuntil_trace : zsig -> list (event zframe) :=
-  until_trace zframe Z Z Z z_eqm (fmt_nch fm) (fun l => l) z_fmap z_add z_mul z_scale z_offset
-       z_tos z_ofs (s_ltb fm) (s_neg fm).
-Definition znext_sample : nat -> inter zframe Z Z Z -> res (option Z * inter zframe Z Z Z) :=
-  next_sample zframe Z Z Z z_eqm (fmt_nch fm) (fun f => f) (fun l => l) z_fmap z_add z_mul z_scale z_offset
-       z_tos z_ofs (s_ltb fm) (s_neg fm).
-Definition zfrom_samples : Z -> list Z -> zsig := from_samples zframe Z Z Z (fmt_nch fm) (fun l => l).
 
 (* ---- fixed closures of the harness ---- *)
 (* map closures: 0 = reverse the channels; 1 = per sample wrapping add of k (integers) /
@@ -151,6 +134,51 @@ Definition genmut_fn (base : Z) (n : nat) : zframe :=
           | _ => v
           end) (fmt_nch fm).
 
+End Prim.
+
+(* the operations an executable instance provides (frames = lists of Z) *)
+Record zops := {
+  o_nch : nat;
+  o_eqm : zframe;
+  o_add : zframe -> zframe -> zframe;
+  o_mul : zframe -> zframe -> zframe;
+  o_scale : Z -> zframe -> zframe;
+  o_offset : Z -> zframe -> zframe;
+  o_tos : Z -> Z;
+  o_ofs : Z -> Z;
+  o_ltb : Z -> Z -> bool;
+  o_neg : Z -> Z;
+  o_canon : Z -> Z;
+  o_map : Z -> Z -> zframe -> zframe;
+  o_zip : Z -> zframe -> zframe -> zframe;
+  o_genmut : Z -> nat -> zframe
+}.
+
+Definition ops_of (fm : fmt) : zops := {|
+  o_nch := fmt_nch fm; o_eqm := z_eqm fm; o_add := z_add fm; o_mul := z_mul fm; o_scale := z_scale fm;
+  o_offset := z_offset fm; o_tos := z_tos fm; o_ofs := z_ofs fm; o_ltb := s_ltb fm; o_neg := s_neg fm;
+  o_canon := s_canon fm; o_map := map_fn fm; o_zip := zip_fn fm; o_genmut := genmut_fn fm |}.
+
+Section Inst.
+Variable OP : zops.
+
+Definition znext : zsig -> zframe * zsig :=
+  next zframe Z Z Z (o_eqm OP) (o_nch OP) (fun l => l) z_fmap (o_add OP) (o_mul OP) (o_scale OP) (o_offset OP)
+       (o_tos OP) (o_ofs OP) (o_ltb OP) (o_neg OP).
+Definition ztrace : zsig -> list (event zframe) :=
+  trace zframe Z Z Z (o_eqm OP) (o_nch OP) (fun l => l) z_fmap (o_add OP) (o_mul OP) (o_scale OP) (o_offset OP)
+        (o_tos OP) (o_ofs OP) (o_ltb OP) (o_neg OP).
+Definition zuntil_next : zsig -> option zframe * zsig :=
+  until_next zframe Z Z Z (o_eqm OP) (o_nch OP) (fun l => l) z_fmap (o_add OP) (o_mul OP) (o_scale OP) (o_offset OP)
+       (o_tos OP) (o_ofs OP) (o_ltb OP) (o_neg OP).
+Definition zuntil_trace : zsig -> list (event zframe) :=
+  until_trace zframe Z Z Z (o_eqm OP) (o_nch OP) (fun l => l) z_fmap (o_add OP) (o_mul OP) (o_scale OP) (o_offset OP)
+       (o_tos OP) (o_ofs OP) (o_ltb OP) (o_neg OP).
+Definition znext_sample : nat -> inter zframe Z Z Z -> res (option Z * inter zframe Z Z Z) :=
+  next_sample zframe Z Z Z (o_eqm OP) (o_nch OP) (fun f => f) (fun l => l) z_fmap (o_add OP) (o_mul OP) (o_scale OP) (o_offset OP)
+       (o_tos OP) (o_ofs OP) (o_ltb OP) (o_neg OP).
+Definition zfrom_samples : Z -> list Z -> zsig := from_samples zframe Z Z Z (o_nch OP) (fun l => l).
+
 (* ---- case language ---- *)
 Inductive ztree :=
 | TIter (id : Z) (l : list (list Z))
@@ -180,9 +208,9 @@ Fixpoint build (bases : list zsig) (arg : zsig) (t : ztree) : zsig :=
   | TSamples id l => zfrom_samples id l
   | TEq => Equilibrium
   | TGen id c => Gen id c 0
-  | TGenMut id base => GenMut id (genmut_fn base) 0
-  | TMap id fnid k t => Map id (map_fn fnid k) (build bases arg t)
-  | TZip id fnid a b => ZipMap id (zip_fn fnid) (build bases arg a) (build bases arg b)
+  | TGenMut id base => GenMut id (o_genmut OP base) 0
+  | TMap id fnid k t => Map id (o_map OP fnid k) (build bases arg t)
+  | TZip id fnid a b => ZipMap id (o_zip OP fnid) (build bases arg a) (build bases arg b)
   | TAdd a b => AddAmp (build bases arg a) (build bases arg b)
   | TMul a b => MulAmp (build bases arg a) (build bases arg b)
   | TScale amp t => ScaleAmp amp (build bases arg t)
@@ -250,7 +278,7 @@ Inductive zop :=
 Definition b2z (b : bool) : Z := if b then 1 else 0.
 Definition zn (k : nat) : Z := Z.of_nat k.
 
-Definition enc_frame (f : zframe) : list Z := map (s_canon fm) f.
+Definition enc_frame (f : zframe) : list Z := map (o_canon OP) f.
 
 Definition enc_event (e : event zframe) : list Z :=
   match e with
@@ -321,7 +349,7 @@ Fixpoint run_inter (cap extra : nat) (st : inter zframe Z Z Z) : list (list Z) *
   | S cap' =>
     let ev := inter_trace st in
     match znext_sample 2 st with
-    | Ok (Some x, st') => let (l, st'') := run_inter cap' extra st' in ((15 :: s_canon fm x :: enc_events ev) :: l, st'')
+    | Ok (Some x, st') => let (l, st'') := run_inter cap' extra st' in ((15 :: o_canon OP x :: enc_events ev) :: l, st'')
     | Ok (None, st') =>
       match extra with
       | O => ([14 :: enc_events ev], st')
@@ -354,7 +382,7 @@ Definition it_step (it : zit) : option (list Z) * list (event zframe) * zit :=
   | ItInter st =>
     let ev := inter_trace st in
     match znext_sample 2 st with
-    | Ok (Some x, st') => (Some [15; s_canon fm x], ev, ItInter st')
+    | Ok (Some x, st') => (Some [15; o_canon OP x], ev, ItInter st')
     | Ok (None, st') => (None, ev, ItInter st')
     | _ => (Some [-2], [], it)
     end
@@ -459,7 +487,7 @@ Inductive zcase := ZCase (fm : fmt) (bases : list ztree) (ops : list zop).
 
 Definition run_case (c : zcase) : list (list Z) :=
   match c with
-  | ZCase fm ts ops => let (l, bases) := run_bases fm ts in l ++ run_ops fm bases ops
+  | ZCase fm ts ops => let (l, bases) := run_bases (ops_of fm) ts in l ++ run_ops (ops_of fm) bases ops
   end.
 
 Definition zll_eqb (a b : list (list Z)) : bool :=
